@@ -27,7 +27,19 @@ def run(ck):
         ph = rnd_bytes(r, CH * r.randrange(2, 6) - r.randrange(0, 17))
         pre_meta[h] = (Th, kh, ph, r.randrange(5), r.randrange(3))
         pre_lines.append("p%d enc %d %d %d %s %s %s" % (h, pre_meta[h][3], pre_meta[h][4], Th, kh.hex(), rnd_seed(r).hex(), wv.hexs(ph)))
+    # short authentic files written with ONE thread (their IV table has one slot): the thread count is an argument of every
+    # operation, not a field of the file, so a later decrypt / verify may name more threads than the table has slots
+    short_meta = {}
+    for h in range(0, nhist, 3):
+        ks = rnd_key(r)
+        short_meta[h] = (ks, r.choice([0, 1, 5, 15, 16, 31]))
+        pre_lines.append("q%d enc %d %d 1 %s %s %s" % (h, r.randrange(5), r.randrange(3), ks.hex(), rnd_seed(r).hex(), wv.hexs(rnd_bytes(r, short_meta[h][1]))))
     pre = wv.run_lines([exe], pre_lines, env=env)
+    shortf = {}
+    for h in short_meta:
+        head, _ = split_impl(pre.get("q%d" % h, ""))
+        if head.startswith("OK "):
+            shortf[h] = head.split()[1]
     valid = {}
     for h in range(nhist):
         head, _ = split_impl(pre.get("p%d" % h, ""))
@@ -135,6 +147,11 @@ def run(ck):
             # a rejected command line whose number overflows (leaves errno = ERANGE behind), later a valid option-driven encryption
             ops.insert(0, (["cli", "-", "-e", "-i", "{D}/p.bin", r.choice(["--cmode", "--hmode"]), "99999999999999999999"], "parse-fails-or-info"))
             ops.append((["cli", "{D}/z%d.wenc" % h, "-e", "-i", "{D}/p.bin", "-k", b64(key), "-o", "{D}/z%d.wenc" % h, "--cmode", str(r.randrange(5)), "--hmode", str(r.randrange(3)), "-n"], "cli-enc"))
+        if h in shortf:
+            T2 = r.choice([2, 3, 4, 16])
+            at = r.randrange(0, len(ops) + 1)
+            ops[at:at] = [([r.choice(["dec", "ver", "dec"]), str(T2), short_meta[h][0].hex(), shortf[h]], "api-short-file-more-threads-than-iv-slots"),
+                          (["enc", str(r.randrange(5)), str(r.randrange(3)), str(r.choice([1, 2, 4])), key.hex(), rnd_seed(r).hex(), wv.hexs(rnd_bytes(r, CH + 9))], "api-enc-multichunk")]
         hist_ops[h] = ops
         lines.append("h%d hist %s" % (h, ";".join(",".join(f.replace("{D}", dirs["hist"]) for f in fields) for fields, _ in ops)))
         for i, (fields, _) in enumerate(ops):
